@@ -1,1 +1,124 @@
-// harness for rs/anda_object_store/src/sidecar.rs (mounted by #[cfg(kani)] hook)
+// @module sidecar::verif_kani
+// Kani harnesses for rs/anda_object_store/src/sidecar.rs — property C07, kernel K4: the timestamp
+// every API reports is a function of the commit point only (committed_at_ms, else the generation's
+// embedded timestamp, else none).
+use super::*;
+include!("/verif/harness/common.rs");
+
+fn hex_digit(n: u8) -> u8 {
+    if n < 10 { b'0' + n } else { b'a' + (n - 10) }
+}
+
+/// A generation string of the minted shape: 16 hex digits (symbolic nibbles), '-', 8 hex digits.
+fn minted(buf: &mut [u8; 25]) -> u64 {
+    let mut v: u64 = 0;
+    let mut i = 0;
+    while i < 16 {
+        let n: u8 = kani::any();
+        kani::assume(n < 16);
+        buf[i] = hex_digit(n);
+        v = (v << 4) | n as u64;
+        i += 1;
+    }
+    buf[16] = b'-';
+    while i < 24 {
+        let n: u8 = kani::any();
+        kani::assume(n < 16);
+        buf[i + 1] = hex_digit(n);
+        i += 1;
+    }
+    v
+}
+
+// @check id=C07 tier=quick cap=900 role=generation_timestamp
+// @fns sidecar::generation_timestamp_ms
+// @stubs core::slice::memchr::memchr -> naive loop
+// @bound every generation of the minted shape: 16 symbolic hex nibbles + '-' + 8 symbolic hex nibbles
+#[kani::proof]
+#[kani::unwind(27)]
+#[kani::stub(core::slice::memchr::memchr, memchr_stub)]
+fn c07_generation_timestamp_parses_minted_shape() {
+    let mut buf = [0u8; 25];
+    let v = minted(&mut buf);
+    let s = unsafe { std::str::from_utf8_unchecked(&buf) };
+    let got = generation_timestamp_ms(s);
+    assert!(got == Some(v), "a minted generation yields exactly its embedded millisecond timestamp");
+    kani::cover!(v > u32::MAX as u64, "timestamp above 32 bits");
+    kani::cover!(v == 0, "zero timestamp");
+}
+
+// Ill-formed shapes: foreign identifiers must yield None (so callers fall back to the backend
+// timestamp) — wrong field widths, missing separator, non-hex digit.
+// @check id=C07 tier=quick cap=900 role=generation_timestamp_foreign
+// @fns sidecar::generation_timestamp_ms
+// @stubs core::slice::memchr::memchr -> naive loop
+// @bound 25-byte strings with symbolic hex nibbles where (a) the separator is moved by one, (b) there is no separator, (c) one symbolic position of the timestamp holds a non-hex letter g..z
+#[kani::proof]
+#[kani::unwind(27)]
+#[kani::stub(core::slice::memchr::memchr, memchr_stub)]
+fn c07_generation_timestamp_rejects_foreign_shapes() {
+    let mut buf = [0u8; 25];
+    let _ = minted(&mut buf);
+    let which: u8 = kani::any();
+    kani::assume(which < 3);
+    if which == 0 {
+        // 15 + '-' + 9
+        let d = buf[15];
+        buf[15] = b'-';
+        buf[16] = d;
+    } else if which == 1 {
+        buf[16] = b'0';
+    } else {
+        let pos: usize = kani::any();
+        kani::assume(pos < 16);
+        let c: u8 = kani::any();
+        kani::assume(c >= b'g' && c <= b'z');
+        buf[pos] = c;
+    }
+    let s = unsafe { std::str::from_utf8_unchecked(&buf) };
+    assert!(generation_timestamp_ms(s).is_none(), "a foreign generation identifier carries no timestamp");
+    kani::cover!(which == 0, "separator moved");
+    kani::cover!(which == 1, "no separator");
+    kani::cover!(which == 2, "non-hex digit");
+}
+
+// @check id=C07 tier=quick cap=600 role=logical_last_modified
+// @fns sidecar::logical_last_modified, sidecar::generation_timestamp_ms
+// @stubs core::slice::memchr::memchr -> naive loop
+// @bound committed_at_ms in {None, 5, 1_700_000_000_000}; generation in {None, two minted strings with different timestamps, a foreign one}; the selection among them is symbolic (the 64-bit calendar arithmetic of chrono does not bit-blast with symbolic milliseconds: timed out at 900 s)
+#[kani::proof]
+#[kani::unwind(27)]
+#[kani::stub(core::slice::memchr::memchr, memchr_stub)]
+fn c07_logical_last_modified_is_a_function_of_the_commit_point() {
+    const G1: &str = "0000018f3a2b1c4d-0a1b2c3d"; // 0x18f3a2b1c4d ms
+    const G2: &str = "0000000000000001-ffffffff";
+    let csel: u8 = kani::any();
+    let gsel: u8 = kani::any();
+    kani::assume(csel < 3 && gsel < 4);
+    let committed = match csel {
+        0 => None,
+        1 => Some(5u64),
+        _ => Some(1_700_000_000_000u64),
+    };
+    // each arm calls the real function with concrete arguments; the *selection* is symbolic
+    let got = match gsel {
+        0 => logical_last_modified(committed, None),
+        1 => logical_last_modified(committed, Some(G1)),
+        2 => logical_last_modified(committed, Some(G2)),
+        _ => logical_last_modified(committed, Some("legacy-object")),
+    };
+    let expect_ms: Option<i64> = match (committed, gsel) {
+        (Some(c), _) => Some(c as i64),
+        (None, 1) => Some(0x18f3a2b1c4d),
+        (None, 2) => Some(1),
+        _ => None,
+    };
+    match (got, expect_ms) {
+        (Some(d), Some(ms)) => assert!(d.timestamp_millis() == ms, "reported instant == commit timestamp (else generation timestamp)"),
+        (None, None) => {}
+        _ => assert!(false, "presence of a logical timestamp as documented"),
+    }
+    kani::cover!(committed.is_some() && gsel == 1, "commit time wins over generation time");
+    kani::cover!(committed.is_none() && gsel == 2, "fallback to generation time");
+    kani::cover!(got.is_none() && gsel == 3, "foreign generation: none");
+}
